@@ -22,6 +22,9 @@ CLAIMS = {
  "C06": dict(cat="model_checking", ref="3 (C06)", technique="TLA+ token-level model ListingScan.tla of the three skip_to_table/next_table procedures (one step per loop iteration) model-checked by TLC for every table configuration occurring in the shipped files; TLC-enumerated selections replayed through history() with recorded scanner landings and compared with stepping",
    text="TLC checks, for the exact table configuration of every shipped file and flavour, that the search for each selected table terminates (safety form and liveness under weak fairness) and lands on the wanted table of the current result set, and that the pinned TOUGH+ logic does not (negative configuration). Every ordered sub-selection TLC enumerates is run through the real history() under a watchdog; the recorded landing of every skip_to_table call, the series (vs. stepping with a second reader), the times, the sign of reversed connections and the reader state afterwards are checked.",
    note="Stepping with a second reader is the value oracle; short-output values at short result sets are not compared; time budget per file limits the selections replayed (count in evidence)."),
+ "C05": dict(cat="model_checking", ref="3 (C05)", technique="TLA+ model ListingLayout.tla of the recorded-layout replay (setup_table/read_table/skip_table for TOUGH2-family listings) model-checked over all table pages up to a length bound; recorded pages of real tables validated by TLC (ListingLayoutTrace.tla); digit-watermarked copies of every shipped file bind each table cell to the printed token it was read from",
+   text="TLC checks that replaying the inferred vertical layout visits exactly the printed rows once each and that skipping equals reading (and finds the uniform-internal-header precondition); for every recorded table page of the shipped files TLC re-derives the visited lines from the first result set's page and compares with the lines the real reader consumed and with the page's data rows. Watermarking (two random-digit copies, one value-form copy) identifies for every cell the (line, token) it came from: own row, printed order, no dropped token, trailing blanks zero, key text, zero/negative/3-digit/no-E forms, skip subsets, addressing. Right level: the layout replay is a small positional state machine; the cell relation is bound by observation.",
+   note="Line tags of table regions are classified by the harness; cell == fortran_float(token) relies on C16; quick tier samples result sets and rows of very large tables (counts in evidence)."),
 }
 REASONS_PENDING = "check not built yet in this revision (see DESIGN.md section 6 build order); the specification family applies"
 NA = {
